@@ -428,6 +428,136 @@ def _accumulate_monotone(g: Guard, fn):
     return False
 
 
+def accept_rule(ctx: core.Ctx, graph: "Graph"):
+    """ACCEPT (valid definitions are not refused): every `raise` on the entry points' paths is reached under at least one *fault* literal -- a
+    failed equality / membership / subset / disjointness / type test, an empty required map, a negative value.  A raise reached only under the
+    opposite of such a literal (the sizes agree, the key is allowed, ...) refuses exactly the valid definitions.  Decided on the guard normal
+    form (conjunction of literals through nested ifs, guard clauses normalised); a raise whose guards are of no recognised kind is only noted."""
+    from .. import estflow, rtmodel, normast
+    from .c17 import _paths
+    ctx.rule("ACCEPT", "no raise on an entry point's path is reached only under conditions that valid definitions satisfy")
+
+    def kind(lit):
+        """-> 'fault' | 'valid' | 'context' | None for one literal"""
+        c, pol = lit
+        if not isinstance(c, tuple) or not c:
+            return None
+        if c[0] == "bin" and c[1] == "==":
+            a, b = c[2], c[3]
+            is_len0 = (a[0] == "call" and a[1] == "len" and b == ("num", "0")) or (b[0] == "call" and b[1] == "len" and a == ("num", "0"))
+            if is_len0:
+                subj = (a if a[0] == "call" else b)[2][0]
+                user_input = subj[0] == "ref" and subj[1] in PARAMS
+                if user_input:
+                    return "fault-empty" if pol else "valid"     # a required map given empty / given at all
+                return "context" if pol else "fault"             # a derived collection (missing / extra / overlap) that is not empty
+            if ("num", "None") in (a, b):
+                return None
+            return "valid" if pol else "fault"                # sizes / key sets agree
+        if c[0] == "bin" and c[1] in ("in",):
+            return "valid" if pol else "fault"
+        if c[0] == "mcall" and c[2] in ("issubset", "isdisjoint", "issuperset"):
+            return "valid" if pol else "fault"
+        if c[0] == "call" and c[1] in ("isinstance", "all"):
+            return "valid" if pol else "fault"
+        if c[0] == "bin" and c[1] == ">":
+            a, b = c[2], c[3]
+            if a in (("num", "0"), ("num", "0.0")):
+                return "fault" if pol else "valid"            # value < 0
+            if b in (("num", "0"), ("num", "0.0")) and (a[0] == "call" and a[1] == "len" or (a[0] == "field" and a[2].endswith("_size"))):
+                return "context"                               # "has any": applicability, neither fault nor validity
+            if a[0] == "call" and a[1] == "len" or b[0] == "call" and b[1] == "len":
+                return None
+        return None
+    n = 0
+    seen = set()
+    PARAMS = set()
+
+    def size_ctx(lit):
+        """+1 for `<x>_size > 0` / `len(..) > 0` holding, -1 for its negation, 0 otherwise"""
+        c, pol = lit
+        if isinstance(c, tuple) and c and c[0] == "bin" and c[1] == ">" and c[3] in (("num", "0"), ("num", "0.0")) \
+                and (c[2][0] == "field" and c[2][2].endswith("_size") or c[2][0] == "call" and c[2][1] == "len"):
+            return 1 if pol else -1
+        if isinstance(c, tuple) and c and c[0] == "bin" and c[1] == "==" and ("num", "0") in (c[2], c[3]):
+            o = c[3] if c[2] == ("num", "0") else c[2]
+            if o[0] == "field" and o[2].endswith("_size") or o[0] == "ref" and o[1].endswith("_size") or o[0] == "call" and o[1] == "len" and not (
+                    o[2] and o[2][0][0] == "ref" and o[2][0][1] in PARAMS and o[2][0][1].endswith("_map")):
+                return -1 if pol else 1              # size == 0 / size != 0
+        if isinstance(c, tuple) and c and c[0] == "bin" and c[1] == ">" and c[3] in (("num", "0"), ("num", "0.0")) and c[2][0] == "ref" and c[2][1].endswith("_size"):
+            return 1 if pol else -1
+        return 0
+    for mod, name in ENTRIES:
+        graph.generator_cls = "ExtendedKalmanFilter" if name.endswith("_ekf") else "Model"
+        for m, q, f in graph.reach(mod, name):
+            if (m, q) in seen:
+                continue
+            seen.add((m, q))
+            fnn = normast.Normaliser(None).function(f)
+            PARAMS.clear()
+            PARAMS.update(a_.arg for a_ in f.args.posonlyargs + f.args.args + f.args.kwonlyargs)
+            par = {}
+            for p_ in ast.walk(fnn):
+                for fld, val in ast.iter_fields(p_):
+                    if isinstance(val, list):
+                        for ch in val:
+                            if isinstance(ch, ast.AST):
+                                par[ch] = (p_, fld)
+                    elif isinstance(val, ast.AST):
+                        par[val] = (p_, fld)
+            for r in [x for x in ast.walk(fnn) if isinstance(x, ast.Raise) and x.exc is not None]:
+                exc = ast.unparse(r.exc)
+                if not any(k in exc for k in ("ModelConstructionError", "ModelDefinitionError", "ValueError", "TypeError")):
+                    continue
+                # all enclosing conditions (for the "is there a fault literal" question) and the deciding one: the innermost enclosing if, or --
+                # for a raise that follows guard clauses -- the exits it falls through
+                conds, deciding = [], None
+                node = r
+                while node in par:
+                    up, fld = par[node]
+                    if isinstance(up, ast.If) and fld in ("body", "orelse"):
+                        lit = (rtmodel.py_expr(up.test), fld == "body")
+                        conds.append(lit)
+                        if deciding is None:
+                            deciding = [lit]
+                    if isinstance(up, (ast.FunctionDef,)):
+                        break
+                    if fld in ("body", "orelse") and isinstance(getattr(up, fld, None), list) and deciding is None:
+                        blk = getattr(up, fld)
+                        k = blk.index(node) if node in blk else -1
+                        prev = [x for x in blk[:k] if isinstance(x, ast.If) and not x.orelse and x.body and isinstance(x.body[-1], (ast.Return, ast.Continue, ast.Raise))]
+                        if prev and k >= 0 and isinstance(node, ast.Raise):
+                            deciding = [(rtmodel.py_expr(x.test), False) for x in prev]
+                            conds += deciding
+                    node = up
+                if not conds or deciding is None:
+                    continue
+                lits = estflow.literals(conds)
+                dl = estflow.literals(deciding)
+                if lits is None or dl is None:
+                    continue
+                n += 1
+                if any(kind(l) == "fault" for l in lits):
+                    continue
+                if any(kind(l) == "fault-empty" for l in lits):
+                    # "the required map is empty" is a fault only where something is required: under a positive size
+                    if not any(size_ctx(l) > 0 for l in lits):
+                        txt = " and ".join(("" if p_ else "not ") + rtmodel.cppast.show(c_)[:60] for c_, p_ in lits)
+                        ctx.oblige("ACCEPT", f"{FILES[m]}:{q}", f"raise under `{txt}`", False, file=FILES[m], func=q, construct="empty-map guard misplaced",
+                                   msg=f"{q} raises `{exc[:60]}` for an empty map under `{txt}`: a model that declares nothing of the kind is refused for not "
+                                       f"supplying it", line=r.lineno)
+                    continue
+                dk = [kind(l) for l in dl]
+                if dk and all(k_ == "valid" for k_ in dk):
+                    txt = " and ".join(("" if p_ else "not ") + rtmodel.cppast.show(c_)[:70] for c_, p_ in dl)
+                    ctx.oblige("ACCEPT", f"{FILES[m]}:{q}", f"raise under `{txt}`", False, file=FILES[m], func=q, construct="raise under valid condition:" + txt[:60],
+                               msg=f"{q} raises `{exc[:60]}` when `{txt}` holds -- a condition that valid definitions satisfy -- and under no fault condition: "
+                                   f"valid definitions are refused", line=r.lineno)
+                elif not any(k_ in ("fault", "valid") for k_ in dk):
+                    ctx.note(f"ACCEPT: raise at {FILES[m]}:{r.lineno} is decided by a condition of no recognised kind")
+    ctx.floor("ACCEPT", n, 12, "raise statements on the entry points' paths whose guards are conjunctions of literals")
+
+
 def run(ctx: core.Ctx) -> int:
     for rid, t in (("VALID-MATRIX", "every fault class has an unconditional raise-guard on every entry point's path before the first output action"),
                    ("F5-ERASE", "a sensor-symbol fault found for one reading cannot be erased by a later reading"),
@@ -594,6 +724,7 @@ def run(ctx: core.Ctx) -> int:
         ctx.oblige("ORDER", "cpp._compile_impl", f"text generation (lines {gen_lines}) precedes open(..., 'w') (line {first_open})", ok,
                    file=FILES["cpp"], func="_compile_impl", construct="generate before open",
                    msg="_compile_impl opens the output files before both texts have been generated: an error during generation leaves a (partial) source file")
+    accept_rule(ctx, graph)
     c13.container_rule(ctx)
     return core.finish(ctx, explanation="validation matrix over the static call graph of the four compile entry points; guard recognisers by "
                                         "subject and relation", **META)
